@@ -91,7 +91,8 @@ def _on_alarm(signum, frame):
 @contextmanager
 def cpu_guard(seconds: float):
     old = signal.signal(signal.SIGVTALRM, _on_alarm)
-    signal.setitimer(signal.ITIMER_VIRTUAL, seconds)
+    # repeating: if the exception is swallowed by a C caller (sqlite/lupa callback) it is raised again
+    signal.setitimer(signal.ITIMER_VIRTUAL, seconds, 0.25)
     try:
         yield
     finally:
